@@ -116,6 +116,7 @@ type gssa struct {
 	assumeNoPending bool
 	assumeLen       int // when >= 0: len() of a list returned by a parser call, in the function under analysis
 	issues    []string
+	sigs      map[string]gsigRec
 	tokReader map[*ssa.Function]bool
 	tokenT    types.Type
 	astPath   string
@@ -520,6 +521,12 @@ func (g *gssa) pureStep(p *gpath, fr *gframe, in ssa.Instruction, depth int) {
 			return
 		}
 		callee := x.Call.StaticCallee()
+		if callee == nil && !x.Call.IsInvoke() {
+			// a predicate handed in as a function value
+			if fv := g.val(fr, x.Call.Value); fv.k == 'f' {
+				callee = fv.fn
+			}
+		}
 		if callee == nil || callee.Pkg != g.pkg || g.advancer[callee] || len(callee.Blocks) == 0 || depth > 6 {
 			return
 		}
@@ -646,7 +653,18 @@ func (r *glevelRun) operandName(callee *ssa.Function, args []gv) string {
 	if w, ok := r.g.wrappers[s]; ok {
 		return w
 	}
+	// a level that exists only as "this function under these arguments" (a parameterised ladder): remembered so
+	// that the chain can continue through it
+	if r.g.sigs == nil {
+		r.g.sigs = map[string]gsigRec{}
+	}
+	r.g.sigs[s] = gsigRec{callee, args}
 	return s
+}
+
+type gsigRec struct {
+	fn   *ssa.Function
+	args []gv
 }
 
 func (r *glevelRun) enterBlock(p *gpath, fr *gframe, b *ssa.BasicBlock) bool {
@@ -919,13 +937,23 @@ func (r *glevelRun) operand(p *gpath, names []string) {
 func (g *gssa) level(name string) *gLevel {
 	lv := &gLevel{fn: name}
 	fn := g.methods[name]
+	vals := map[ssa.Value]gv{}
+	var topArgs []gv
+	if rec, ok := g.sigs[name]; ok && fn == nil {
+		// "function(arguments)": a level met as an operand of another level
+		fn = rec.fn
+		topArgs = rec.args
+		for i, prm := range fn.Params {
+			if i < len(rec.args) {
+				vals[prm] = rec.args[i]
+			}
+		}
+	}
 	if fn == nil || len(fn.Blocks) == 0 {
 		lv.issues = append(lv.issues, "function "+name+" not found")
 		return lv
 	}
 	// resolve forwarding wrappers
-	vals := map[ssa.Value]gv{}
-	var topArgs []gv
 	for depth := 0; depth < 4; depth++ {
 		callee, args := g.forward(fn, vals)
 		if callee == nil {
@@ -1019,11 +1047,22 @@ func (g *gssa) level(name string) *gLevel {
 		ss = append(ss, s)
 	}
 	sort.Strings(ss)
-	if len(ss) > 1 {
-		lv.issues = append(lv.issues, "the operands parsed after the operator differ by path: "+strings.Join(ss, " | "))
+	// paths may parse fewer operands (one of them taken as a literal token, e.g. a regex after ~): the longest
+	// sequence describes the level; two paths that disagree on an operand are an issue
+	longest := ""
+	for _, s := range ss {
+		if len(s) > len(longest) {
+			longest = s
+		}
 	}
-	if len(ss) > 0 && ss[0] != "" {
-		lv.rights = strings.Split(ss[0], " ")
+	for _, s := range ss {
+		if s != "" && !strings.HasPrefix(longest+" ", s+" ") {
+			lv.issues = append(lv.issues, "the operands parsed after the operator differ by path: "+strings.Join(ss, " | "))
+			break
+		}
+	}
+	if longest != "" {
+		lv.rights = strings.Split(longest, " ")
 	}
 	switch {
 	case len(lv.ops) == 0:
